@@ -111,6 +111,19 @@ func checkC07() *rtCheck {
 		Floor:      [2]int{10, 150},
 		AllowFiles: true,
 		Streams:    true,
+		PostUncompiled: func(run *vc.Run, d *pipeline.Design) {
+			// the documents of a design whose Go code does not build are still compared with the design (what the
+			// server mounts is unknown: that half is skipped)
+			v := oracle.C07(d.Spec, filepath.Join(d.Dir, "gen"), nil)
+			run.Eval(1)
+			run.Count("documents_checked_of_uncompiled_designs", 4)
+			if v.Inconclusive != "" {
+				return
+			}
+			for _, f := range v.Findings {
+				run.Violation(f.Key, f.What, c07Witness{Spec: d.Spec, DSL: d.DSL})
+			}
+		},
 		PostDesign: func(run *vc.Run, d *pipeline.Design, setup map[string]any) {
 			mounted := map[string][][2]string{}
 			if b, err := json.Marshal(setup["mounted"]); err == nil {
